@@ -58,7 +58,8 @@ class C12(core.Check):
         'expect:ACCEPT', 'expect:REJECT', 'muted-statement', 'second-step-of-a-macro', 'value-as-expression',
         'kind:valid_address/indirect_numeric', 'kind:valid_address/deferred_numeric', 'output:none', 'output:none+listing',
         'kind:sliced-address/zone-ends-inside-the-page', 'numeric-keys-in:json', 'numeric-keys-in:yaml',
-        'kind:relative_address/one-bound-only', 'kind:index-code-of-an-indexed-register']}
+        'kind:relative_address/one-bound-only', 'kind:index-code-of-an-indexed-register',
+        'kind:relative_address/target-across-most-of-the-address-space']}
 
     def one(self, conf, text, op, addr, tags, addr_bits=16, endian='big', zones=None, gz=None, origin=None, opcode_bits=8,
             fmt='json', prelude=''):
@@ -160,6 +161,18 @@ class C12(core.Check):
                     yield self.one(conf, t_, {'id': 'o', 'index': {'id': 'nb', 'val': v}}, 0,
                                    ['kind:numeric_bytecode', 'kind:index-code-of-an-indexed-register', 'pos:' + pos],
                                    prelude='' if v >= 0 else f'C12_NEG = 0 - {-v}\n')
+        # a relative target most of the address space away: the offset is target minus address, not the short way round
+        for ab, size, lohi in ((8, 8, (-128, 127)), (8, 8, None), (16, 16, (-32768, 32767)), (16, 8, (-128, 127)), (12, 12, None), (16, 16, None)):
+            top = (1 << ab) - 1
+            for addr, tgt in ((top - 15, 5), (5, top - 10), (top - 1, 0), (0, top), (top // 2 + 2, 1), (2, top // 2 + 2)):
+                conf = {'type': 'relative_address', 'argument': {'size': size, 'byte_align': True}}
+                if lohi:
+                    conf['argument'].update({'min': lohi[0], 'max': lohi[1]})
+                if addr + 4 > top:
+                    continue
+                yield self.one(conf, str(tgt), {'id': 'o', 'val': tgt}, addr,
+                               ['kind:relative_address', 'kind:relative_address/target-across-most-of-the-address-space',
+                                'pos:' + ('far-below' if tgt < addr else 'far-above'), 'rel:from-start'], addr_bits=ab)
         # relative_address with one bound only: that bound holds, the other side is limited by the field width alone
         for (bound, val, size) in [('max', 100, 8), ('max', 0, 8), ('max', -3, 8), ('min', -10, 8), ('min', 0, 8), ('min', 5, 8), ('max', 7, 4),
                                    ('min', -2, 4)]:
